@@ -1609,6 +1609,15 @@ def unroll_const_loops(func, limit=8):
                     it = consts[it.id]
                 elif isinstance(it, ast.Name) and len(ldefs.get(it.id, [])) == 1 and isinstance(ldefs[it.id][0], (ast.Tuple, ast.List)) and it.id not in mutated:
                     it = ldefs[it.id][0]  # a local literal tuple that is only iterated
+                elif isinstance(it, ast.Name) and it.id not in mutated:
+                    # bound to a literal tuple by the nearest preceding statement of this block (one arm of a branch)
+                    for prev in reversed(out):
+                        if isinstance(prev, ast.Assign) and len(prev.targets) == 1 and isinstance(prev.targets[0], ast.Name) and prev.targets[0].id == it.id:
+                            if isinstance(prev.value, (ast.Tuple, ast.List)):
+                                it = prev.value
+                            break
+                        if any(isinstance(x, ast.Name) and x.id == it.id and isinstance(x.ctx, (ast.Store, ast.Del)) for x in ast.walk(prev)):
+                            break
                 def pure_path(x):
                     """an access path (a.b[c].d) without calls, not written or mutated in the loop body"""
                     y = x
@@ -1719,6 +1728,8 @@ def inline_access_aliases(func, arith=False):
         # the aliased object must not be mutated while the alias is live: no mutation of a root of the path inside the
         # loop that contains the definition, nor anywhere after the definition
         roots = {x.id for x in ast.walk(d) if isinstance(x, ast.Name)}
+        _inner = {id(x.value) for x in ast.walk(d) if isinstance(x, (ast.Attribute, ast.Subscript))}
+        read_paths = {norm(x) for x in ast.walk(d) if isinstance(x, (ast.Name, ast.Attribute, ast.Subscript)) and id(x) not in _inner}  # maximal access paths
         dstmt = next((st for st in ast.walk(func.node) if isinstance(st, ast.Assign) and (st.value is d or (isinstance(d, ast.Subscript) and st.value is d.value and isinstance(st.targets[0], (ast.Tuple, ast.List))))), None)
         if dstmt is None:
             continue
@@ -1737,11 +1748,18 @@ def inline_access_aliases(func, arith=False):
                 base = m_.func.value
             if base is None:
                 continue
+            written = norm(m_ if isinstance(m_, (ast.Subscript, ast.Attribute)) else base)
             while isinstance(base, (ast.Subscript, ast.Attribute)):
                 base = base.value
             if isinstance(base, ast.Name) and base.id in roots and (id(m_) in in_loop or getattr(m_, "lineno", 0) >= dstmt.lineno):
-                unsafe = True
-                break
+                # the written path and a path read by the definition overlap (one is a prefix of the other):
+                # `rec.tags[k] = v` does not disturb `rec.query_end - rec.query_start`
+                def _overlap(a_, b_):
+                    return a_ == b_ or a_.startswith(b_ + ".") or a_.startswith(b_ + "[") or b_.startswith(a_ + ".") or b_.startswith(a_ + "[")
+
+                if not arith or any(_overlap(written, r_) for r_ in read_paths):
+                    unsafe = True
+                    break
         if unsafe:
             continue
         cands[name] = d
@@ -1862,31 +1880,47 @@ def expand_table_dispatch(func, limit=8):
             return n
 
     def specialise(rest, var, val):
-        """copy of `rest` with var := val (when var is not stored again), unpackings of it split, constants propagated"""
+        """copy of `rest` with var := val (when var is not stored again), unpackings of it split, constants propagated
+        (also into nested blocks) and tests on constants decided"""
         rest = copy.deepcopy(rest)
-        env = {}
-        restored = {x.id for r in rest for x in ast.walk(r) if isinstance(x, ast.Name) and isinstance(x.ctx, (ast.Store, ast.Del))}
-        if var not in restored:
-            env[var] = val
-        out = []
+        nstore = {}
         for r in rest:
-            r = Sub(env).visit(r) if env else r
-            if isinstance(r, ast.Assign) and len(r.targets) == 1 and isinstance(r.targets[0], ast.Tuple) and isinstance(r.value, ast.Tuple) and len(r.targets[0].elts) == len(r.value.elts) and all(isinstance(t, ast.Name) for t in r.targets[0].elts) and all(isinstance(x, (ast.Constant, ast.Name)) for x in r.value.elts):
-                for t, x in zip(r.targets[0].elts, r.value.elts):
-                    a = ast.copy_location(ast.Assign(targets=[ast.Name(id=t.id, ctx=ast.Store())], value=x), r)
-                    out.append(a)
-                    if sum(1 for q in rest for y in ast.walk(q) if isinstance(y, ast.Name) and y.id == t.id and isinstance(y.ctx, (ast.Store, ast.Del))) == 1 and isinstance(x, ast.Constant):
-                        env[t.id] = x
-                continue
-            out.append(r)
-        res = []
-        for r in out:
-            r2 = Fold().visit(r)
-            if isinstance(r2, list):
-                res.extend(r2)
-            else:
-                res.append(r2)
-        return res
+            for y in ast.walk(r):
+                if isinstance(y, ast.Name) and isinstance(y.ctx, (ast.Store, ast.Del)):
+                    nstore[y.id] = nstore.get(y.id, 0) + 1
+
+        def flat(x):
+            return x if isinstance(x, list) else [x]
+
+        def prop(stmts, env):
+            """env (mutable) holds the constants known at this point of the block"""
+            out = []
+            for r in stmts:
+                if env:
+                    r = Sub(env).visit(r)
+                pieces = flat(Fold().visit(r))
+                if len(pieces) > 1 or (pieces and pieces[0] is not r):
+                    out.extend(prop(pieces, env))  # an `if` decided by the substitution: its arm is read like the block itself
+                    continue
+                for r2 in pieces:
+                    if isinstance(r2, ast.Assign) and len(r2.targets) == 1 and isinstance(r2.targets[0], ast.Tuple) and isinstance(r2.value, ast.Tuple) and len(r2.targets[0].elts) == len(r2.value.elts) and all(isinstance(t, ast.Name) for t in r2.targets[0].elts) and all(isinstance(x, (ast.Constant, ast.Name)) for x in r2.value.elts):
+                        for t, x in zip(r2.targets[0].elts, r2.value.elts):
+                            out.append(ast.copy_location(ast.Assign(targets=[ast.Name(id=t.id, ctx=ast.Store())], value=x), r2))
+                            if nstore.get(t.id) == 1 and isinstance(x, ast.Constant):
+                                env[t.id] = x
+                        continue
+                    if isinstance(r2, ast.Assign) and len(r2.targets) == 1 and isinstance(r2.targets[0], ast.Name) and isinstance(r2.value, ast.Constant) and nstore.get(r2.targets[0].id) == 1:
+                        env[r2.targets[0].id] = r2.value
+                    for fld in ("body", "orelse", "finalbody"):
+                        lst = getattr(r2, fld, None)
+                        if isinstance(lst, list) and lst and isinstance(lst[0], ast.stmt) and not isinstance(r2, (ast.FunctionDef, ast.AsyncFunctionDef, ast.ClassDef)):
+                            setattr(r2, fld, prop(lst, dict(env)) or [ast.copy_location(ast.Pass(), r2)])
+                    for h in getattr(r2, "handlers", []) or []:
+                        h.body = prop(h.body, dict(env))
+                    out.append(r2)
+            return out
+
+        return prop(rest, {var: val} if var not in nstore else {})
 
     changed = [False]
 
@@ -1997,6 +2031,114 @@ def scalarise_counters(func):
         return out
 
     root.body = block(root.body)
+    ast.fix_missing_locations(root)
+    return Func(func.module, func.qualname, root, func.cls, func.parent)
+
+
+def fuse_split_loops(func):
+    """A Func in which two loops over the same pure iterable with the same target, adjacent in one block (constant
+    initialisations may stand between them), whose bodies are independent — neither reads or writes what the other writes,
+    neither leaves its loop early — are written as the one loop they were split from:
+        for x in S: A        for x in S:
+        t = ''          ->       A
+        for x in S: B            B          (with `t = ''` moved in front)"""
+    import copy
+
+    changed = [False]
+
+    def rw(stmts):
+        r, w = set(), set()
+        for st in stmts:
+            for x in ast.walk(st):
+                if isinstance(x, ast.Name):
+                    (w if isinstance(x.ctx, (ast.Store, ast.Del)) else r).add(x.id)
+                if isinstance(x, (ast.Subscript, ast.Attribute)) and isinstance(x.ctx, (ast.Store, ast.Del)):
+                    b = x
+                    while isinstance(b, (ast.Subscript, ast.Attribute)):
+                        b = b.value
+                    if isinstance(b, ast.Name):
+                        w.add(b.id)
+                if isinstance(x, ast.Call) and isinstance(x.func, ast.Attribute) and x.func.attr in _MUTATORS:
+                    b = x.func.value
+                    while isinstance(b, (ast.Subscript, ast.Attribute)):
+                        b = b.value
+                    if isinstance(b, ast.Name):
+                        w.add(b.id)
+        return r, w
+
+    def leaves(stmts):
+        return bool(own_loop_jumps(stmts)) or any(isinstance(x, (ast.Return, ast.Yield, ast.YieldFrom)) for st in stmts for x in ast.walk(st))
+
+    def pure_iter(e):
+        return all(isinstance(x, (ast.Name, ast.Attribute, ast.Subscript, ast.Constant, ast.Load)) for x in ast.walk(e))
+
+    def block(stmts):
+        stmts = list(stmts)
+        i = 0
+        out = []
+        while i < len(stmts):
+            st = stmts[i]
+            for fld in ("body", "orelse", "finalbody"):
+                lst = getattr(st, fld, None)
+                if isinstance(lst, list) and lst and isinstance(lst[0], ast.stmt) and not isinstance(st, (ast.FunctionDef, ast.AsyncFunctionDef, ast.ClassDef)):
+                    setattr(st, fld, block(lst))
+            if isinstance(st, ast.Try):
+                for h in st.handlers:
+                    h.body = block(h.body)
+            if isinstance(st, ast.For) and not st.orelse and pure_iter(st.iter):
+                j = i + 1
+                inits = []
+                while j < len(stmts) and isinstance(stmts[j], ast.Assign) and len(stmts[j].targets) == 1 and isinstance(stmts[j].targets[0], ast.Name) and isinstance(stmts[j].value, ast.Constant):
+                    inits.append(stmts[j])
+                    j += 1
+                if j < len(stmts) and isinstance(stmts[j], ast.For) and not stmts[j].orelse and norm(stmts[j].target) == norm(st.target) and norm(stmts[j].iter) == norm(st.iter):
+                    l2 = stmts[j]
+                    tnames = {x.id for x in ast.walk(st.target) if isinstance(x, ast.Name)}
+                    r1, w1 = rw(st.body)
+                    r2, w2 = rw(l2.body)
+                    it_names = {x.id for x in ast.walk(st.iter) if isinstance(x, ast.Name)}
+                    init_names = {a.targets[0].id for a in inits}
+                    ok = not leaves(st.body) and not leaves(l2.body)
+                    ok = ok and not ((w1 - tnames) & (r2 | w2)) and not ((w2 - tnames) & r1) and not (it_names & (w1 | w2)) and not (init_names & (r1 | w1)) and not (tnames & (w1 | w2))
+                    if ok:
+                        fused = ast.copy_location(ast.For(target=st.target, iter=st.iter, body=st.body + l2.body, orelse=[]), st)
+                        stmts[i : j + 1] = inits + [fused]
+                        changed[0] = True
+                        continue  # look at the same position again (the inits), then the fused loop may fuse further
+            out.append(st)
+            i += 1
+        return out
+
+    root = copy.deepcopy(func.node)
+    root.body = block(root.body)
+    if not changed[0]:
+        return func
+    ast.fix_missing_locations(root)
+    return Func(func.module, func.qualname, root, func.cls, func.parent)
+
+
+def inline_identity_calls(repo, func):
+    """A Func in which a call `f(x)` of a program function whose whole body is `return <its parameter>` is written `x`."""
+    import copy
+
+    changed = [False]
+
+    class T(ast.NodeTransformer):
+        def visit_Call(self, c):
+            self.generic_visit(c)
+            if len(c.args) == 1 and not c.keywords and isinstance(c.func, (ast.Name, ast.Attribute)):
+                callee = repo.resolve_call(func, c)
+                if callee is not None:
+                    body = [x for x in callee.node.body if not (isinstance(x, ast.Expr) and isinstance(x.value, ast.Constant))]
+                    params = [p_ for p_ in callee.params if p_ != "self"]
+                    if len(body) == 1 and isinstance(body[0], ast.Return) and isinstance(body[0].value, ast.Name) and len(params) == 1 and body[0].value.id == params[0]:
+                        changed[0] = True
+                        return c.args[0]
+            return c
+
+    root = T().visit(copy.deepcopy(func.node))
+    if not changed[0]:
+        return func
     ast.fix_missing_locations(root)
     return Func(func.module, func.qualname, root, func.cls, func.parent)
 
@@ -2804,9 +2946,9 @@ def detuple(repo, func, only=None):
     return Func(func.module, func.qualname, root, func.cls, func.parent)
 
 
-def desugar_comprehensions(func):
+def desugar_comprehensions(func, kinds=("extend", "assign", "aug", "update")):
     """A Func in which   X.extend(E for v in IT if C)   /   X = [E for v in IT if C]   /   X += [E for ...]   (one
-    generator) are written as loops that append."""
+    generator) are written as loops that append, and   D.update((k, v) for ...)   as a loop of stores."""
     import copy
 
     changed = [False]
@@ -2837,16 +2979,37 @@ def desugar_comprehensions(func):
             if isinstance(st, ast.Try):
                 for h in st.handlers:
                     h.body = block(h.body)
-            if isinstance(st, ast.Expr) and isinstance(st.value, ast.Call) and isinstance(st.value.func, ast.Attribute) and st.value.func.attr == "extend" and isinstance(st.value.func.value, ast.Name) and len(st.value.args) == 1 and ok(st.value.args[0]):
+            if "extend" in kinds and isinstance(st, ast.Expr) and isinstance(st.value, ast.Call) and isinstance(st.value.func, ast.Attribute) and st.value.func.attr == "extend" and isinstance(st.value.func.value, ast.Name) and len(st.value.args) == 1 and ok(st.value.args[0]):
                 out.append(loop_of(st.value.args[0], st.value.func.value.id, st))
                 changed[0] = True
                 continue
-            if isinstance(st, ast.Assign) and len(st.targets) == 1 and isinstance(st.targets[0], ast.Name) and isinstance(st.value, ast.ListComp) and ok(st.value) and st.targets[0].id not in {x.id for x in ast.walk(st.value) if isinstance(x, ast.Name)}:
+            if "update" in kinds and isinstance(st, ast.Expr) and isinstance(st.value, ast.Call) and isinstance(st.value.func, ast.Attribute) and st.value.func.attr == "update" and isinstance(st.value.func.value, ast.Name) and len(st.value.args) == 1 and not st.value.keywords:
+                # D.update((k, v) for ... in ...)  /  D.update({k: v for ... in ...}): one store per item
+                a0 = st.value.args[0]
+                kv = None
+                if ok(a0) and isinstance(a0.elt, ast.Tuple) and len(a0.elt.elts) == 2:
+                    kv = (a0.elt.elts[0], a0.elt.elts[1])
+                elif isinstance(a0, ast.DictComp) and len(a0.generators) == 1 and not a0.generators[0].is_async:
+                    kv = (a0.key, a0.value)
+                if kv is not None:
+                    g = a0.generators[0]
+                    store = ast.Assign(targets=[ast.Subscript(value=ast.Name(id=st.value.func.value.id, ctx=ast.Load()), slice=kv[0], ctx=ast.Store())], value=kv[1])
+                    body = [store]
+                    for c in reversed(g.ifs):
+                        body = [ast.If(test=c, body=body, orelse=[])]
+                    lp = ast.copy_location(ast.For(target=g.target, iter=g.iter, body=body, orelse=[]), st)
+                    for x in ast.walk(lp):
+                        if not hasattr(x, "lineno") and isinstance(x, (ast.stmt, ast.expr)):
+                            ast.copy_location(x, a0)
+                    out.append(lp)
+                    changed[0] = True
+                    continue
+            if "assign" in kinds and isinstance(st, ast.Assign) and len(st.targets) == 1 and isinstance(st.targets[0], ast.Name) and isinstance(st.value, ast.ListComp) and ok(st.value) and st.targets[0].id not in {x.id for x in ast.walk(st.value) if isinstance(x, ast.Name)}:
                 out.append(ast.copy_location(ast.Assign(targets=st.targets, value=ast.List(elts=[], ctx=ast.Load())), st))
                 out.append(loop_of(st.value, st.targets[0].id, st))
                 changed[0] = True
                 continue
-            if isinstance(st, ast.AugAssign) and isinstance(st.op, ast.Add) and isinstance(st.target, ast.Name) and isinstance(st.value, ast.ListComp) and ok(st.value):
+            if "aug" in kinds and isinstance(st, ast.AugAssign) and isinstance(st.op, ast.Add) and isinstance(st.target, ast.Name) and isinstance(st.value, ast.ListComp) and ok(st.value):
                 out.append(loop_of(st.value, st.target.id, st))
                 changed[0] = True
                 continue
@@ -2997,6 +3160,20 @@ def plain_statements(func):
         return isinstance(e, (ast.Name, ast.Constant))
 
     counter = [0]
+    # a name bound once to a generator expression (one generator) and consumed by exactly one `for v in NAME`
+    lazy, lazy_src = {}, {}
+    uses = {}
+    for n in ast.walk(node):
+        if isinstance(n, ast.Name) and isinstance(n.ctx, ast.Load):
+            uses[n.id] = uses.get(n.id, 0) + 1
+    for st in walk_stmts(node.body):
+        if isinstance(st, ast.Assign) and len(st.targets) == 1 and isinstance(st.targets[0], ast.Name) and stores.get(st.targets[0].id) == 1 and isinstance(st.value, ast.GeneratorExp) and len(st.value.generators) == 1 and not st.value.generators[0].is_async and uses.get(st.targets[0].id) == 1:
+            nm = st.targets[0].id
+            if any(isinstance(l, ast.For) and isinstance(l.iter, ast.Name) and l.iter.id == nm and isinstance(l.target, ast.Name) for l in ast.walk(node)):
+                gnames = {x.id for x in ast.walk(st.value.generators[0].target) if isinstance(x, ast.Name)}
+                if not (gnames & (set(stores) - gnames)) or all(stores.get(x, 0) == 0 for x in gnames):
+                    lazy[nm] = st.value
+                    lazy_src[nm] = st.value
 
     def block(stmts):
         out = []
@@ -3017,12 +3194,26 @@ def plain_statements(func):
                 st.iter = xs
                 st.body = [bind] + st.body
                 changed[0] = True
+            if isinstance(st, ast.For) and isinstance(st.iter, ast.Name) and st.iter.id in lazy and isinstance(st.target, ast.Name):
+                # rows = (E for x in XS) ... for row in rows: B   ->   for x in XS: row = E; B
+                g = lazy[st.iter.id].generators[0]
+                bind = ast.copy_location(ast.Assign(targets=[ast.Name(id=st.target.id, ctx=ast.Store())], value=copy.deepcopy(lazy[st.iter.id].elt)), st)
+                pre = [ast.copy_location(ast.If(test=ast.UnaryOp(op=ast.Not(), operand=copy.deepcopy(c)), body=[ast.Continue()], orelse=[]), st) for c in g.ifs]
+                st.target = copy.deepcopy(g.target)
+                st.iter = copy.deepcopy(g.iter)
+                st.body = pre + [bind] + st.body
+                changed[0] = True
+            if isinstance(st, ast.Assign) and len(st.targets) == 1 and isinstance(st.targets[0], ast.Name) and st.targets[0].id in lazy and st.value is lazy_src.get(st.targets[0].id):
+                changed[0] = True
+                continue  # the generator expression now lives in the loop that consumed it
             if isinstance(st, ast.Assign) and len(st.targets) > 1 and isinstance(st.value, (ast.Name, ast.Constant)):
                 for t in st.targets:
                     out.append(ast.copy_location(ast.Assign(targets=[t], value=copy.deepcopy(st.value)), st))
                 changed[0] = True
                 continue
-            if isinstance(st, ast.Expr) and isinstance(st.value, ast.Call) and isinstance(st.value.func, ast.Attribute) and st.value.func.attr == "setdefault" and len(st.value.args) == 2 and not st.value.keywords and simple(st.value.func.value) and all(simple(a) for a in st.value.args):
+            if isinstance(st, ast.Expr) and isinstance(st.value, ast.Call) and isinstance(st.value.func, ast.Attribute) and st.value.func.attr == "setdefault" and len(st.value.args) == 2 and not st.value.keywords and simple(st.value.func.value) and simple(st.value.args[0]) and (simple(st.value.args[1]) or (isinstance(st.value.args[1], ast.Call) and isinstance(st.value.args[1].func, ast.Name) and not st.value.args[1].keywords and all(simple(a) for a in st.value.args[1].args))):
+                # (a value built by a constructor call over simple arguments is evaluated either way by setdefault; written
+                # under the test it is evaluated only when stored — the same for a constructor without side effects)
                 d, (k, v) = st.value.func.value, st.value.args
                 store = ast.copy_location(ast.Assign(targets=[ast.Subscript(value=copy.deepcopy(d), slice=copy.deepcopy(k), ctx=ast.Store())], value=v), st)
                 out.append(ast.copy_location(ast.If(test=ast.Compare(left=copy.deepcopy(k), ops=[ast.NotIn()], comparators=[copy.deepcopy(d)]), body=[store], orelse=[]), st))
@@ -3241,7 +3432,8 @@ class Ctx:
         m_ = _re.match(r"r(\d\d)_", getattr(rule_fn, "__name__", ""))
         fam = f"R{m_.group(1)}" if m_ else None
         failed = {d.rule.split(".")[0] for d in self.deferred + self.soft_deferred}
-        if fam is not None and fam in failed:
+        independent = kwargs.pop("_independent", False)  # the rule reads code of its own (not the model an earlier rule failed on)
+        if fam is not None and fam in failed and not independent:
             self.notes.append(f"{rule_fn.__name__} not evaluated: an earlier rule of {fam} was undecidable on this tree")
             return None
         try:
